@@ -514,12 +514,20 @@ pub fn run_kp(fields: &[&str]) -> (i32, String) {
         }
     }
     args.push(op);
+    // (the names sort in the reverse of the order the files are given in; a file whose text is that of an earlier
+    // one is that file, named again)
+    let mut written: Vec<(String, String)> = vec![];
     for i in 0..nfiles {
-        let path = dir.join(format!("in{i}.txt"));
+        let tag = format!("{}_{i}", 9 - (i % 10));
+        let path = dir.join(format!("in{tag}.txt"));
+        if let Some((_, earlier)) = written.iter().find(|(text, _)| text == fields[3 + i] && !text.is_empty()) {
+            args.push(earlier.clone());
+            continue;
+        }
         if fields[3 + i] == "UNREADABLE" {
-            args.push(dir.join(format!("missing{i}.txt")).to_string_lossy().to_string());
+            args.push(dir.join(format!("missing{tag}.txt")).to_string_lossy().to_string());
         } else if fields[3 + i] == "DIRECTORY" {
-            let d = dir.join(format!("adir{i}"));
+            let d = dir.join(format!("adir{tag}"));
             let _ = std::fs::create_dir_all(&d);
             args.push(d.to_string_lossy().to_string());
         } else if let Some(prefix) = fields[3 + i].strip_prefix("BROKEN:") {
@@ -531,6 +539,7 @@ pub fn run_kp(fields: &[&str]) -> (i32, String) {
         } else {
             let _ = std::fs::write(&path, unescape(fields[3 + i]));
             args.push(path.to_string_lossy().to_string());
+            written.push((fields[3 + i].to_string(), path.to_string_lossy().to_string()));
         }
     }
     let out = std::process::Command::new(kp).args(&args).env_remove("RUST_LOG").stdin(std::process::Stdio::null()).output();
